@@ -10,6 +10,7 @@ From Coq Require Import List NArith Bool Arith Lia Field_theory.
 From CC Require Import Dem DemProofs.
 From CC Require Import CryptoKem.
 From CC Require CryptoKemInst.
+From CC Require PointCodec.
 Import ListNotations.
 
 Theorem C07_tag_commits :
@@ -109,4 +110,38 @@ Theorem C07_strip_metadata_accepted :
 Proof. exact (@header_strip_metadata_accepted). Qed.
 Print Assumptions C07_strip_metadata_accepted.
 
+(* Byte level (coq/PointCodec.v; F13): the theorems above speak about PARSED encapsulations.  "Changing any byte of the
+   serialized form" additionally needs that two different byte strings are never accepted as the same object.  Fixed-
+   width fields are opaque in the wire model (WireRoundTrip*.v gives write (read b) = b); group elements go through a
+   library parser.  With the repaired reader (canonical encodings only) the serialized form is unique; the pinned reader
+   of the p-256 build (any encoding the SEC1 parser decodes, e.g. the compact one) is refuted on a toy parser with the
+   same shape, and on the real crate by the tampering campaign of checks/c07.py (encoding-tag values). *)
+Theorem C07_canonical_point_read_injective :
+  forall (P : Type) (dec : PointCodec.blob -> option P) (enc : P -> PointCodec.blob) (b b' : PointCodec.blob) (p : P),
+       PointCodec.read_point P dec enc true b = Some p -> PointCodec.read_point P dec enc true b' = Some p -> b = b'.
+Proof. exact (@PointCodec.read_point_fixed_injective). Qed.
+Print Assumptions C07_canonical_point_read_injective.
 
+Theorem C07_serialized_form_unique :
+  forall (P : Type) (dec : PointCodec.blob -> option P) (enc : P -> PointCodec.blob) (O : Type)
+         (split : PointCodec.blob -> option (O * list PointCodec.blob)) (join : O -> list PointCodec.blob -> PointCodec.blob),
+       (forall (b : PointCodec.blob) (o : O) (bs : list PointCodec.blob), split b = Some (o, bs) -> join o bs = b) ->
+       forall (b b' : PointCodec.blob) (x : O * list P),
+       PointCodec.read_object P dec enc O split true b = Some x ->
+       PointCodec.read_object P dec enc O split true b' = Some x -> b = b'.
+Proof. exact (@PointCodec.serialized_form_unique). Qed.
+Print Assumptions C07_serialized_form_unique.
+
+Theorem C07_canonical_read_accepts_written :
+  forall (P : Type) (dec : PointCodec.blob -> option P) (enc : P -> PointCodec.blob) (p : P),
+       dec (enc p) = Some p -> PointCodec.read_point P dec enc true (enc p) = Some p.
+Proof. exact (@PointCodec.read_point_fixed_accepts_written). Qed.
+Print Assumptions C07_canonical_read_accepts_written.
+
+Theorem C07_pinned_point_read_refuted :
+  exists (b b' : PointCodec.blob) (p : N * bool),
+         b <> b' /\
+         PointCodec.read_point (N * bool) PointCodec.toy_dec PointCodec.toy_enc false b = Some p /\
+         PointCodec.read_point (N * bool) PointCodec.toy_dec PointCodec.toy_enc false b' = Some p.
+Proof. exact PointCodec.pinned_read_point_refuted. Qed.
+Print Assumptions C07_pinned_point_read_refuted.
